@@ -232,8 +232,22 @@ def FeatureMap.build (m : FeatureMap) : FeatureState :=
   let sp := m.spans.map SpanArgs.build
   { spans := sp, parentLength := m.parentLength, length := (sp.map SpanState.length).foldl (· + ·) 0 }
 
-/-- rich dict → object: the span dicts are the recorded arguments -/
-def FeatureMap.roundtripJson (m : FeatureMap) : FeatureState := (FeatureMap.build m)
+/-- JSON: `to_rich_dict` exports, per span, the recorded constructor arguments
+(`Span._serialisable`), and `parent_length` from the live state; `from_rich_dict`
+calls the constructors again. A built map therefore carries its recorded arguments. -/
+structure BuiltFeatureMap where
+  recorded : List SpanArgs
+  state : FeatureState
+  deriving DecidableEq, Repr
+
+def FeatureMap.construct (m : FeatureMap) : BuiltFeatureMap :=
+  { recorded := m.spans, state := FeatureMap.build m }
+
+def BuiltFeatureMap.toRich (b : BuiltFeatureMap) : FeatureMap :=
+  { spans := b.recorded, parentLength := b.state.parentLength }
+
+def BuiltFeatureMap.roundtripJson (b : BuiltFeatureMap) : BuiltFeatureMap :=
+  FeatureMap.construct b.toRich
 
 /-- pickle of the built object: every span is re-initialised from its live state -/
 def FeatureState.roundtripPickle (s : FeatureState) : FeatureState :=
